@@ -19,6 +19,7 @@ REPL = {
     'collinear3->OCF': ('collinear3', ['O', 'C', 'F'], [(0, 0, 0), (1.2, 0, 0), (2.9, 0, 0)]),
     'collinear3->OCSN': ('collinear3', ['O', 'C', 'S', 'N'], [(0, 0, 0), (1.2, 0, 0), (2.7, 0, 0), (1.2, 1.0, 0.5)]),
     'single->F': ('single', ['F'], [(0, 0, 0)]),
+    'single->FCl-long': ('single', ['F', 'Cl'], [(0, 0, 0), (14.5, 0.4, -8.2)]),
     'singleF->H': ('singleF', ['H'], [(0, 0, 0)]),
     'pair->CF': ('pair', ['C', 'F'], [(0, 0, 0), (1.35, 0, 0)]),
     'pairCF->pair': ('pairCF', ['C', 'H'], [(0, 0, 0), (1.09, 0, 0)]),
@@ -102,6 +103,10 @@ def run_e2e(ctx, p):
         jt = [ctx.real(f"jt{c}", -20, 20) for c in range(3)]
     search = make_pattern(ctx, None, elements=sel, positions=spos, translate=jt)
     replace = make_pattern(ctx, None, elements=rel, positions=rpos, translate=jt)
+    if p.get('pat_charges'):
+        # a pattern cut from another, slightly differently charged, occurrence: charges of atoms that stay in place must not be overwritten
+        replace.charges = np.array([0.4 + 0.1 * k for k in range(len(rel))])
+        search.charges = np.array([0.4 + 0.1 * k for k in range(len(sel))])
     if p.get('unused_type_row'):
         # the replacement pattern is a subset of a larger molecule: its type table has a trailing row that no atom uses
         replace.atom_type_elements = list(replace.atom_type_elements) + ['Cl']
@@ -117,6 +122,9 @@ def run_e2e(ctx, p):
         if p.get(h) is not None:
             kw[h] = p[h]
     snap_pos = [list(r) for r in st.positions]
+    pat_snap = ([list(r) for r in search.positions], [list(r) for r in replace.positions])
+    if p.get('fraction') is not None:
+        kw['replace_fraction'] = p['fraction']
     res, count = ctx.ms.mofun.replace_pattern_in_structure(st, search, replace, atol=A, return_num_matches=True,
                                                            replace_all=bool(p.get('replace_all')), **kw)
     occ = [g for kind, g in groups if kind in OCCURRENCE_KINDS]
@@ -124,7 +132,14 @@ def run_e2e(ctx, p):
         occ = [[i] for i, e in enumerate(els) if e == 'H']
     return dict(st=st, res=res, count=count, occ=occ, els=els, cell=cell, search_el=sel, spos=np.array(MOTIFS[motif][1], dtype=float),
                 rel=rel, rpos=np.array(REPL[p['repl']][2], dtype=float), snap_pos=snap_pos, search=search, replace=replace,
-                groups=groups)
+                groups=groups, pat_snap=pat_snap)
+
+
+def check_patterns_untouched(ctx, R):
+    with core.nosimplify():
+        for nm, obj, snap in (('search', R['search'], R['pat_snap'][0]), ('replace', R['replace'], R['pat_snap'][1])):
+            ctx.require(f'the {nm} pattern passed by the caller is left unmodified',
+                        AND(len(obj.positions) == len(snap), *[EQ(obj.positions[i][c], snap[i][c]) for i in range(min(len(snap), len(obj.positions))) for c in range(3)]))
 
 
 def shared_map(R, replace_all=False):
